@@ -1375,6 +1375,10 @@ impl<'ast> LoweringContext<'ast> {
                 }
             }
             ast::CustomType::Enum(enm) => {
+                if self_param.reference.is_some() {
+                    self.errors.push(LoweringError::Other(format!("Method `{method_full_path}` takes a reference to an enum as a self parameter, which isn't allowed")));
+                    return Err(());
+                }
                 let tcx_id = self.lookup_id.resolve_enum(enm).expect("enum is in env");
 
                 let attrs = self.attr_validator.attr_from_ast(
